@@ -783,6 +783,13 @@ def rule_j(ctx, ix):
         for st in ast.walk(loops[0]):
             if isinstance(st, ast.Assign) and unparse(st.value) == src and isinstance(st.targets[0], ast.Attribute) and st.targets[0].attr == attr:
                 how, ok = 'assigned', True
+            elif isinstance(st, ast.For) and isinstance(st.target, ast.Name) and isinstance(st.iter, (ast.Tuple, ast.List)) and any(
+                    isinstance(e_, ast.Constant) and e_.value == attr for e_ in st.iter.elts):
+                # for name in ('subset_state', 'style', 'label'): setattr(grp, name, getattr(subset, name))
+                for c_ in calls_in(st):
+                    if call_name(c_) == 'setattr' and len(c_.args) == 3 and unparse(c_.args[1]) == st.target.id and \
+                            unparse(c_.args[2]).replace(' ', '') == 'getattr(%s,%s)' % (old, st.target.id):
+                        how, ok = 'assigned (setattr)', True
             elif isinstance(st, ast.Call):
                 passed = [(k.arg, k.value) for k in st.keywords if k.arg is not None]
                 g0 = dc.resolve_func(call_name(st)) if isinstance(st.func, ast.Attribute) and call_name(st) else None
